@@ -149,7 +149,7 @@ def oracle_c13(evs, term, case, allow_draw_overrun=False):
 TAG_OF_OP = {"sp": 1, "jn": 2, "yd": 3, "pk": 4, "uh": 5, "ut": 5, "rn": 6, "rs": 8, "sa": 10, "st": 11, "sr": 12, "sc": 13, "sv": 14,
              "lk": 15, "tl": 16, "ul": 17, "rd": 18, "wr": 18, "tr": 19, "tw": 19, "ru": 20, "cw": 21, "cn": 22, "ca": 22,
              "sd": 23, "ts": 23, "rc": 24, "tc": 24, "dt": 25, "dr": 26, "bw": 27, "co": 28, "ic": 29,
-             "as": 31, "aw": 32, "ab": 33, "dh": 34, "ay": 35, "bo": 36, "if": 37}
+             "as": 31, "aw": 32, "ab": 33, "dh": 34, "ay": 35, "bo": 36, "if": 37, "lw": 38, "id": 40, "zs": 1}
 
 
 def op_tag(op):
@@ -174,10 +174,32 @@ def attribute(evs, case, want_stacks=False):
         if not st:
             out.append(None)
             continue
+        # a destructor body that ran to its end is left
+        while len(st) > 1 and len(st[-1]) > 2 and st[-1][2] == "dtor" and st[-1][1] >= len(bodies[st[-1][0]] if st[-1][0] < len(bodies) else []):
+            st.pop()
         frame = st[-1]
         ops = bodies[frame[0]] if frame[0] < len(bodies) else []
         if e.tag == 9:
             out.append(None)
+            continue
+        if e.tag == 39:      # a thread-local value is dropped: its key's destructor body starts
+            spec = case["objs"][e.vals[0]] if e.vals and e.vals[0] < len(case["objs"]) else ""
+            d = spec.split(":")[1] if ":" in spec else "-"
+            if d != "-":
+                st.append([int(d), 0, "dtor"])
+            out.append(None)
+            continue
+        if e.tag == 41:
+            if e.vals:       # scope() starts: its closure runs the body named by the `zc` op
+                op = ops[frame[1]] if frame[1] < len(ops) else None
+                if op and op.startswith("zc"):
+                    st.append([int(op.split(".")[1]), 0, "scope"])
+                out.append(None)
+            else:
+                if len(st) > 1:
+                    st.pop()
+                    st[-1][1] += 1
+                out.append(None)
             continue
         if e.tag == 30:      # a call_once initialiser starts: the `co` op is at the frame's pc
             op = ops[frame[1]] if frame[1] < len(ops) else None
@@ -219,9 +241,118 @@ def attribute(evs, case, want_stacks=False):
         out.append(op)
         if e.tag in (1, 31):
             child = e.vals[0]
-            stacks[child] = [[int(op[2:]), 0]]
+            stacks[child] = [[int(op.split(".")[1]) if op.startswith("zs") else int(op[2:]), 0]]
     if want_stacks:
         return out, stacks
+    return out
+
+
+# ---------------- C07: thread lifecycle, scopes, thread-locals ----------------
+def oracle_c07(evs, term, case):
+    """Judges the implementation's own trace: closures run once, join hands over the joined thread's value and comes
+    after everything that thread does (its destructors included), scope() returns after its threads ended,
+    thread-locals are per-thread, lazily initialised, destructed exactly once in initialisation order and never
+    resurrected, ids and names identify the thread."""
+    out = []
+    objs = case["objs"]
+    attr = attribute(evs, case)
+    ended = {}                  # task -> index of END
+    spawned = {}                # task -> index of its spawn record
+    last_ev = {}                # task -> index of its last O event
+    tls = {}                    # (task, key) -> ["live", value] | ["dead"]
+    init_order = {}             # task -> keys in initialisation order, not yet dropped
+    scope_open = {}             # task -> list of scoped tids of the innermost open scope
+    ids_seen = {}
+    W = 2 ** 64
+    for i, e in enumerate(evs):
+        if e.kind != "O":
+            continue
+        t = e.task
+        op = attr[i]
+        last_ev[t] = i
+        if e.tag == 9:
+            if t in ended:
+                out.append(("C07", "task %d reached the end of its closure twice" % t, None))
+            ended[t] = i
+        elif e.tag == 1:
+            c = e.vals[0]
+            if c in spawned or c == 0:
+                out.append(("C07", "thread id %d handed out twice" % c, None))
+            spawned[c] = i
+            if op and op.startswith("zs") and scope_open.get(t):
+                scope_open[t][-1].append(c)
+        elif e.tag == 2:
+            c, v = e.vals[0], e.vals[1] if len(e.vals) > 1 else None
+            if v != 1000 + c:
+                out.append(("C07", "join on thread %d returned %s, the closure's value is %d" % (c, v, 1000 + c), None))
+            if c not in ended:
+                out.append(("C07", "join on thread %d returned before its closure ended" % c, None))
+            left = [k for k in init_order.get(c, [])]
+            if left:
+                out.append(("C07", "join on thread %d returned before the destructors of its thread-locals %s ran" % (c, left), None))
+            later = [j for j in range(i + 1, len(evs)) if evs[j].kind == "O" and evs[j].task == c]
+            if later:
+                out.append(("C07", "thread %d still runs (%s) after a join on it returned" % (c, evs[later[0]].tag), None))
+        elif e.tag == 41:
+            if e.vals:
+                scope_open.setdefault(t, []).append([])
+            else:
+                kids = scope_open.get(t, [[]]).pop() if scope_open.get(t) else []
+                late = [c for c in kids if c not in ended]
+                if late:
+                    out.append(("C07", "scope() returned while scoped threads %s had not finished" % late, None))
+        elif e.tag == 38:
+            key, status, old = e.vals
+            init = int(objs[key][1:].split(":")[0]) if key < len(objs) and objs[key][0] == "k" else None
+            add = int(op.split(".")[1]) if op and op.startswith("lw") else None
+            cur = tls.get((t, key))
+            if cur is None:
+                if status != 1 or old != init:
+                    out.append(("C07", "first access of task %d to key %d: status %d value %d (expected lazy initialisation to %s)" % (t, key, status, old, init), None))
+                if status != 2:
+                    tls[(t, key)] = ["live", (old + (add or 0)) % W]
+                    init_order.setdefault(t, []).append(key)
+            elif cur[0] == "live":
+                if status != 0 or old != cur[1]:
+                    out.append(("C07", "task %d sees value %d (status %d) of key %d, its own instance holds %d" % (t, old, status, key, cur[1]), None))
+                if status != 2:
+                    cur[1] = (old + (add or 0)) % W
+            else:
+                if status != 2:
+                    out.append(("C07", "task %d accessed key %d during or after its destruction and got status %d (value %d) instead of an error" % (t, key, status, old), None))
+                    tls[(t, key)] = ["live", (old + (add or 0)) % W]
+                    init_order.setdefault(t, []).append(key)
+        elif e.tag == 39:
+            key, v = e.vals
+            cur = tls.get((t, key))
+            order = init_order.get(t, [])
+            if cur is None or cur[0] != "live":
+                out.append(("C07", "destructor of key %d ran in task %d without a live value (%s)" % (key, t, cur), None))
+            else:
+                if v != cur[1]:
+                    out.append(("C07", "destructor of key %d in task %d saw %d, the task's instance held %d" % (key, t, v, cur[1]), None))
+                if not order or order[0] != key:
+                    out.append(("C07", "destructors of task %d out of initialisation order: key %d dropped, order is %s" % (t, key, order), None))
+                if t not in ended:
+                    out.append(("C07", "destructor of key %d ran before the closure of task %d ended" % (key, t), None))
+            if key in order:
+                order.remove(key)
+            tls[(t, key)] = ["dead"]
+        elif e.tag == 40:
+            tid, name_ok = e.vals
+            if tid != t:
+                out.append(("C07", "thread::current().id() is %d inside task %d" % (tid, t), None))
+            if name_ok != 1:
+                out.append(("C07", "thread::current().name() inside task %d is not the name given at spawn" % t, None))
+    if term == "ok":
+        stopped = any(e.kind == "D" and e.chosen is None for e in evs) or case["ms"].startswith("cont")
+        if not stopped:
+            for t, order in init_order.items():
+                if order and t in ended:
+                    out.append(("C07", "thread-locals %s of task %d were never destructed although the thread finished" % (order, t), None))
+            for c in spawned:
+                if c not in ended:
+                    out.append(("C07", "closure of thread %d never ran to its end in a run that ended normally" % c, None))
     return out
 
 
@@ -252,7 +383,7 @@ def oracle_sync2(evs, term, case):
             pass
         if op is not None:
             if e.tag in (1, 31):
-                body_of_task[e.vals[0]] = int(op[2:])
+                body_of_task[e.vals[0]] = int(op.split('.')[1]) if op.startswith('zs') else int(op[2:])
             if e.tag == 22:
                 cv = int(op[2:])
                 notifies.setdefault(cv, []).append((i, e.vals[0] == 1))
